@@ -7,7 +7,7 @@ PROPERTY = "C13"
 
 def jobs(tier, seed):
     quick = tier == "quick"
-    J = []
+    J = [{"id": "C13/P/compile_ir._runtime_code_offsets", "fn": "vverif.contracts.deploy:job_offsets", "args": (), "functions": ["vyper.ir.compile_ir:_runtime_code_offsets"], "engine": "PyVC"}]
     cfgs = ["L-gas", "V-O2", "L-none", "V-none"] if quick else ["L-gas", "L-none", "L-codesize", "V-O2", "V-none", "V-O3", "V-Os"]
     for tid, src in D.family().items():
         for cfg in cfgs:
